@@ -23,7 +23,7 @@ func registerExtras() {
 	propertyRules["C03"] = append(propertyRules["C03"], ruleL1Obl, ruleRefBlock)
 	propertyRules["C01"] = append(propertyRules["C01"], ruleL1Obl, ruleRevalidate, ruleVerifyKey)
 	propertyRules["C09"] = append(propertyRules["C09"], ruleResponderWindow, ruleStaleCVRequest, ruleCVPending)
-	propertyRules["C14"] = append(propertyRules["C14"], ruleDurationSrc)
+	propertyRules["C14"] = append(propertyRules["C14"], ruleDurationSrc, ruleTimestampUnit)
 	propertyRules["C10"] = append(propertyRules["C10"], ruleDurationSrc)
 	propertyRules["C16"] = append(propertyRules["C16"], ruleBlockStartRef, ruleInstantSet)
 	propertyRules["C11"] = append(propertyRules["C11"], ruleDivNonzero)
@@ -32,7 +32,7 @@ func registerExtras() {
 	propertyRules["C04"] = append(propertyRules["C04"], rulePrefix)
 	propertyRules["C12"] = append(propertyRules["C12"], rulePrefix)
 	propertyRules["C02"] = append(propertyRules["C02"], ruleVerifyKey, ruleBlockComplete)
-	propertyRules["C15"] = append(propertyRules["C15"], ruleBlockComplete)
+	propertyRules["C15"] = append(propertyRules["C15"], ruleBlockComplete, ruleTimestampUnit)
 	propertyRules["C07"] = append(propertyRules["C07"], ruleVerifyKey)
 	propertyRules["C08"] = append(propertyRules["C08"], ruleVerifyKey)
 	// the quorum is only as good as its uses: every progress decision compares its count with M in normal form (a site
